@@ -174,6 +174,7 @@ inductive Inbound
   | stunOther                   -- response without transaction / unsupported indication: ignored
   | garbageFromServer
   | garbageFromOther
+  | relayedFromOther            -- a Data indication or ChannelData whose source is not the TURN server
 deriving Repr
 
 def enqueue (s : State) (frm : Addr) (d : Bytes) : State :=
@@ -195,6 +196,7 @@ def handleInbound (s : State) : Inbound → State × List Out
   | .stunOther => (s, [])
   | .garbageFromServer => (s, [.inboundErr "nonstun"])
   | .garbageFromOther => (s, [.unhandled])
+  | .relayedFromOther => (s, [.inboundErr "stranger"])   -- only the TURN server relays: nothing is queued (finding F33)
 
 /-- `UDPConn.ReadFrom` when something is queued or the socket is closed (blocking otherwise) -/
 def readFrom (s : State) : State × List Out :=
